@@ -551,7 +551,7 @@ class AbsDomain:
 
     def _kill_fields(self, s, name=None):
         """forget refinements of memory expressions (after a store through memory or a call)"""
-        for k in [k for k in s if k.startswith("f:") or k.startswith("fact:nonempty")]:
+        for k in [k for k in s if k.startswith("f:") or k.startswith("fact:nonempty") or k.startswith("fact:lt:")]:
             if name is None or re.search(r"(?<![A-Za-z0-9_])%s(?![A-Za-z0-9_])" % re.escape(name), k):
                 del s[k]
 
@@ -675,6 +675,9 @@ class AbsDomain:
             r = self._binop(op, a, b)
             if "*" in qtype(ks[0]) or "*" in qtype(ks[1]):
                 return TOP, s
+            if op == "-" and s.get("fact:lt:%s|%s" % (expr_str(strip(ks[1], casts=True)), expr_str(strip(ks[0], casts=True)))):
+                # the subtrahend is known to be smaller on this path (`while (written < total) ... total - written`): no wrap, at least one
+                r = r.meet(AV(1, INF))
             return (wrap_to(r, qt) if int_type(qt) else r), s
         if k == "CompoundAssignOperator":
             op = e0.get("opcode")[:-1]
@@ -891,6 +894,13 @@ class AbsDomain:
                 if bd is not None and bd.content is not None and int_type(qt):
                     return bd.content, s
             return (AV.of_type(qt) if int_type(qt) else TOP), s
+        if k == "UnaryOperator" and e1.get("opcode") == "*":
+            # `*p` reads what `p[0]` reads: the characters a caller's string can hold
+            b = strip(kids(e1)[0], casts=True)
+            if b.get("kind") == "DeclRefExpr" and b.get("referencedDecl", {}).get("kind") == "ParmVarDecl":
+                bd = self.w.pbound.get((self.fname, ref_name(b)))
+                if bd is not None and bd.content is not None and int_type(qt):
+                    return bd.content, s
         return (AV.of_type(qt) if int_type(qt) else TOP), s
 
     def _table_root(self, e):
@@ -1010,7 +1020,8 @@ class AbsDomain:
         if obj.get("kind") == "StringLiteral":
             return
         akey = self._arrkey(obj)
-        if akey is None or akey.startswith("garr:") or EFF.lvalue_root(obj)[0] in self.SENTINEL_TABLES:
+        root_ = EFF.lvalue_root(obj)[0]
+        if akey is None or akey.startswith("garr:") or self.table_ptrs.get(root_, root_) in self.SENTINEL_TABLES:
             return          # const tables: their strings are checked by the table rules (T1 / T4)
         info = self.w.arrinfo.setdefault(akey, {"size": array_len(qt), "zero": self._zero_init(obj, s), "name": expr_str(obj),
                                                "uses": [], "node": obj, "fn": self.fname})
@@ -1141,6 +1152,11 @@ class AbsDomain:
                 return None
             s = self._narrow(l, nl, s)
             s = self._narrow(r, nr, s)
+            # a strict order between two plain variables is remembered as a relation (killed when either is stored to)
+            l0, r0 = strip(l, casts=True), strip(r, casts=True)
+            if op in ("<", ">") and l0.get("kind") == "DeclRefExpr" and r0.get("kind") == "DeclRefExpr":
+                small, big = (l0, r0) if op == "<" else (r0, l0)
+                s["fact:lt:%s|%s" % (expr_str(small), expr_str(big))] = True
             # x[0] != '\0' : the string is not empty
             for a, b in ((l, rv), (r, lv)):
                 a0 = strip(a, casts=True)
